@@ -396,6 +396,9 @@ func (vc *FnVC) enterLoop(h *ssa.BasicBlock, li *loopInfo, st *State) {
 	if li.spec != nil {
 		env := vc.loopEnv(h, st)
 		for _, inv := range li.spec.Invariants {
+			if !vc.clauseApplies(inv) {
+				continue
+			}
 			vc.assume(vc.trBool(inv.E, env))
 		}
 		for _, a := range li.spec.Assumes {
@@ -426,8 +429,15 @@ func (vc *FnVC) checkInvariants(h *ssa.BasicBlock, li *loopInfo, st *State, phiV
 	if li.spec != nil {
 		env := vc.loopEnv(h, st)
 		for i, inv := range li.spec.Invariants {
+			if !vc.clauseApplies(inv) {
+				continue
+			}
 			t := vc.trBool(inv.E, env)
-			vc.oblige("inv-"+when, fmt.Sprintf("loop%d.%d", li.ordinal, i), t, vc.fnTags(), inv.Src)
+			tags := vc.fnTags()
+			if len(inv.Tags) > 0 {
+				tags = append(append([]string{}, inv.Tags...), vc.prop)
+			}
+			vc.oblige("inv-"+when, fmt.Sprintf("loop%d.%d", li.ordinal, i), t, tags, inv.Src)
 		}
 	}
 	if phiVals != nil {
